@@ -79,7 +79,7 @@ def variants(rng, p):
 
 def run(ctx):
     H = 3 if ctx.quick else 4
-    progs = base(ctx, 300 if ctx.quick else 2500)
+    progs = base(ctx, 300 if ctx.quick else 1200)
     rng = ctx.rng('variants')
     inputs, index = [], []
     for i, p in enumerate(progs):
